@@ -11,6 +11,8 @@ ROOT = os.path.dirname(os.path.dirname(os.path.abspath(__file__)))
 MODULES = [
     "contracts.common",
     "contracts.rate_limiter",
+    "contracts.validators",
+    "contracts.dynamic_lists",
 ]
 for m in MODULES:
     importlib.import_module(m)
@@ -24,6 +26,11 @@ if os.path.exists(_kf):
 COMMON_ASSUMPTIONS = ["A1", "A6", "A7"]
 
 PROPERTIES = {
+    "C16": {
+        "level": "proof",
+        "trusted_base": ["z3 SMT solver", "pyvc VC generator (/verif/pyvc)", "CPython ast module"],
+        "assumptions": ["A3", "EV"],
+    },
     "C18": {
         "level": "proof",
         "trusted_base": ["z3 4.x/5.1 SMT solver", "pyvc VC generator (this repository, /verif/pyvc)", "CPython ast module"],
